@@ -129,8 +129,25 @@ def U_OPS() -> Dict[str, Callable]:
         "ktensor_innerprod": lambda S, a: ttb.ktensor(a["U"], np.array([2.0, -1.0])).innerprod(S),
         "tensor_innerprod": lambda S, a: T(a["Dn"]).innerprod(S),
         "tensor_eq": lambda S, a: T(a["Dn"]).isequal(S),
+        # the same array at values that are not dyadic (sums of tenths depend on the order of summation), compared
+        # with its own lexicographically sorted / reversed storage: equal in every stored order
+        "isequal_sorted_tenths": lambda S, a: bool(_tenths(S).isequal(_tenths(S, "sorted"))),
+        "isequal_reversed_tenths": lambda S, a: bool(_tenths(S, "reversed").isequal(_tenths(S))),
+        "sub_sorted_tenths_nnz": lambda S, a: int((_tenths(S) - _tenths(S, "sorted")).nnz),
+        "innerprod_sorted_tenths": lambda S, a: bool(abs(_tenths(S).innerprod(_tenths(S, "sorted")) - _tenths(S).norm() ** 2) < 1e-12),
     }
     return ops
+
+
+def _tenths(S, order=""):
+    import bind
+    subs, vals = S.subs.copy(), S.vals.astype(float) * 0.1
+    if order == "sorted" and len(subs):
+        idx = np.lexsort(subs.T[::-1])
+        subs, vals = subs[idx], vals[idx]
+    if order == "reversed":
+        subs, vals = subs[::-1].copy(), vals[::-1].copy()
+    return bind.ttb.sptensor(subs, vals, S.shape)
 
 
 def _set(S, key, value):
